@@ -24,7 +24,7 @@ ASSUMPTIONS = [
     "Hessian corruption is applied to a single (row, col) entry (not mirrored), so exactly one column of the check is affected",
 ]
 TIERS = {"quick": {"worlds": 700, "wall": 150, "limit": 60.0}, "thorough": {"worlds": 15000, "wall": 1700, "limit": 120.0}}
-GATES = ("nontrivial", "corrupt.hess_wrong_multiplier", "corrupt.dropped_entry", "corrupt.grad", "corrupt.jac", "corrupt.hess", "detected", "passed.uncorrupted", "passed.subtolerance", "passed.other_check")
+GATES = ("nontrivial", "second_solve.corrupted", "corrupt.hess_wrong_multiplier", "corrupt.dropped_entry", "corrupt.grad", "corrupt.jac", "corrupt.hess", "detected", "passed.uncorrupted", "passed.subtolerance", "passed.other_check")
 
 
 def generate(rng, seed, index, tier):
@@ -143,6 +143,23 @@ def case(world):
             viol.append(V(ID, "wrong-check", "%s entry corrupted but the error comes from a check with %d rows" % (comp, shp), sub, ctx, sig_extra=comp))
             continue
         bump("detected")
+    # ---- the check runs on *every* solve: the same solver object, derivatives now wrong
+    sub = {"variant": "second-solve"}
+    plans_ok = [pl for pl in world["case"]["plans"] if not pl["sub"] and not pl.get("drop") and pl["col"] < rt.um.n and ((first and pl["comp"] in ("grad", "jac") and (pl["comp"] != "jac" or pl["row"] < rt.um.m)) or (second and pl["comp"] == "hess" and pl["row"] < rt.um.n))]
+    if plans_ok and R1.outcome != "DerivError" and (only is None or only == sub):
+        pl = plans_ok[0]
+        e_s, shift = _internal_entry_and_shift(rt, pl["comp"], pl["row"], pl["col"], xi, yi)
+        d_s = pl["sign"] * (10.0 * (tol + 1e-5 * abs(e_s)) + 1e-4)
+        w = copy.deepcopy(world)
+        w["faults"] = [{"dev": "eval", "comp": pl["comp"], "corrupt": {"row": pl["row"], "col": pl["col"], "delta": float(np.ldexp(d_s, -int(shift)))}}]
+        F = execute(w, problem=R1.problem, solver=R1.solver)
+        execs += 1
+        bump("second_solve.corrupted")
+        keys.append("%s:second:%s" % (R0.traj_digest()[:10], pl["comp"]))
+        if F.outcome != "DerivError":
+            viol.append(V(ID, "missed", "second solve() on the same solver: %s entry (%d,%d) is now wrong by 10 x tolerance but the solve went on: %s" % (pl["comp"], pl["row"], pl["col"], F.outcome), sub, {"mode": mode, "comp": pl["comp"]}, sig_extra="second-solve"))
+        else:
+            bump("detected")
     # ---- the constraint-curvature part of the Hessian is wrong (multiplier mis-scaled by the user)
     sub = {"variant": "wrong_y"}
     if second and rt.um.m > 0 and (only is None or only == sub):
